@@ -27,7 +27,7 @@ var c10Progs = []string{
 	"{ x = match ({a: 1, b: 2, c: 3}) { {a: p, b: q, c: r} => [p, q, r] }\nprint x }",
 	"function stop() { exit }\n{ print 'before'; o = {a: stop(), b: 1 / 0, c: nosuch()}; print 'after' }",
 	"{ n = 0; print {z: n++, a: n++}, n; printf('%v %v %v\\n', n++, n++, n) }",
-	"{ a = [3, 1, 2]; a.push(0); print a.sort(), a.contains(3), a.pop(), a.popfirst(), a.length(), 'Ab'.upper(), 'Ab'.lower(), 'a,b'.split(','), 2.5.floor(), 2.5.ceil(), 2.5.round() }",
+	"{ a = [3, 1, 2]; a.push(0); print a.sort(), a.contains(3), a.pop(), a.popfirst(), a.length(), 'Ab'.upper(), 'Ab'.lower(), 'a,b'.split(','), 2.5 .floor(), 2.5 .ceil(), 2.5 .round() }",
 }
 
 type c10Result struct {
